@@ -2,6 +2,7 @@ use vstd::prelude::*;
 use std::cmp;
 use vstd::std_specs::cmp::OrdSpec;
 use std::io::{self, Read, BufReader, BufRead};
+use std::str;
 verus! {
 
 // ===================== prelude (trusted) =====================
@@ -41,6 +42,32 @@ pub broadcast proof fn lemma_suffix_trans(a: Seq<u8>, b: Seq<u8>, c: Seq<u8>)
     ensures is_suffix(a, c)
 { assert(a =~= c.subrange(c.len() - a.len(), c.len() as int)); }
 pub broadcast group group_suffix { lemma_suffix_refl, lemma_suffix_skip, lemma_suffix_sub, lemma_suffix_trans }
+}
+pub mod fidx {
+use vstd::prelude::*;
+use super::first_idx;
+pub broadcast proof fn lemma_first_idx_none(s: Seq<u8>, d: u8)
+    requires forall|j: int| 0 <= j < s.len() ==> s[j] != d,
+    ensures #[trigger] first_idx(s, d) == s.len(),
+    decreases s.len(),
+{
+    if s.len() > 0 {
+        assert forall|j: int| 0 <= j < s.skip(1).len() implies s.skip(1)[j] != d by { assert(s.skip(1)[j] == s[j + 1]); }
+        lemma_first_idx_none(s.skip(1), d);
+    }
+}
+pub proof fn lemma_first_idx_some(s: Seq<u8>, d: u8, i: int)
+    requires 0 <= i < s.len(), s[i] == d, forall|j: int| 0 <= j < i ==> s[j] != d,
+    ensures first_idx(s, d) == i,
+    decreases i,
+{
+    if i > 0 {
+        assert(s.skip(1)[i - 1] == s[i]);
+        assert forall|j: int| 0 <= j < i - 1 implies s.skip(1)[j] != d by { assert(s.skip(1)[j] == s[j + 1]); }
+        lemma_first_idx_some(s.skip(1), d, i - 1);
+    }
+}
+pub broadcast group group_first_idx { lemma_first_idx_none }
 }
 pub use sfx::is_suffix;
 broadcast use sfx::group_suffix;
@@ -87,6 +114,33 @@ pub fn vp_take_read_until<R: Read>(r: &mut BufReader<R>, n: u64, d: u8, b: &mut 
             && wire(final(r)) == wire(old(r)).skip(k as int),
 { r.take(n).read_until(d, b) }
 
+#[verifier::external_type_specification]
+#[verifier::external_body]
+pub struct ExUtf8Error(std::str::Utf8Error);
+#[verifier::external_type_specification]
+#[verifier::external_body]
+pub struct ExParseIntError(std::num::ParseIntError);
+pub assume_specification<'a>[ core::str::from_utf8 ](v: &'a [u8]) -> (r: std::result::Result<&'a str, std::str::Utf8Error>)
+    ensures r is Ok <==> utf8_ok(v@), r matches Ok(s) ==> s@ == utf8_chars(v@);
+pub assume_specification[ str::trim ](s: &str) -> (r: &str)
+    ensures r@ == trim_spec(s@);
+pub assume_specification[ usize::from_str_radix ](s: &str, radix: u32) -> (r: std::result::Result<usize, std::num::ParseIntError>)
+    ensures radix == 16 ==> (match r { Ok(v) => hex_spec(s@) == Some(v), Err(_) => hex_spec(s@) is None });
+pub assume_specification<T, U, D: FnOnce() -> U, F: FnOnce(T) -> U>[ Option::<T>::map_or_else ](o: Option<T>, default: D, f: F) -> (r: U)
+    requires o is None ==> default.requires(()), o matches Some(x) ==> f.requires((x,)),
+    ensures o is None ==> default.ensures((), r), o matches Some(x) ==> f.ensures((x,), r);
+pub assume_specification<T, E, U, F: FnOnce(T) -> std::result::Result<U, E>>[ std::result::Result::<T, E>::and_then ](o: std::result::Result<T, E>, f: F) -> (r: std::result::Result<U, E>)
+    requires o matches Ok(x) ==> f.requires((x,)),
+    ensures o matches Ok(x) ==> f.ensures((x,), r), o matches Err(e) ==> r == Err::<U, E>(e);
+/// generic std idiom `s.iter().position(pred)`: index of the first element satisfying pred
+#[verifier::external_body]
+pub fn vp_slice_position<F: FnMut(&u8) -> bool>(s: &[u8], pred: F) -> (r: Option<usize>)
+    requires forall|x: &u8| pred.requires((x,)),
+    ensures
+        r matches Some(i) ==> i < s@.len() && pred.ensures((&s@[i as int],), true)
+            && forall|j: int| 0 <= j < i ==> pred.ensures((&#[trigger] s@[j],), false),
+        r is None ==> forall|j: int| 0 <= j < s@.len() ==> pred.ensures((&#[trigger] s@[j],), false),
+{ s.iter().position(pred) }
 pub enum InvalidResponseKind { ChunkSize, Chunk }
 pub const MAXB: usize = 64 * 1024;
 
@@ -96,7 +150,16 @@ pub open spec fn le_len(w: Seq<u8>) -> Option<int> {
     else if w.len() >= 2 && w[0] == 13u8 && w[1] == 10u8 { Some(2) }
     else { None }
 }
-pub uninterp spec fn chunk_size_spec(line: Seq<u8>) -> Option<usize>;
+pub uninterp spec fn utf8_ok(b: Seq<u8>) -> bool;
+pub uninterp spec fn utf8_chars(b: Seq<u8>) -> Seq<char>;
+pub uninterp spec fn trim_spec(s: Seq<char>) -> Seq<char>;
+pub uninterp spec fn hex_spec(s: Seq<char>) -> Option<usize>;
+/// RFC 9112 7.1: chunk-size is the HEXDIG run before an optional `;ext`; surrounding blanks tolerated
+pub open spec fn chunk_size_spec(line: Seq<u8>) -> Option<usize> {
+    let i = first_idx(line, 59u8);
+    let part = line.take(i);
+    if utf8_ok(part) { hex_spec(trim_spec(utf8_chars(part))) } else { None }
+}
 
 pub open spec fn line_of(w: Seq<u8>, k: int) -> Seq<u8> {
     if k >= 2 && w[k - 2] == 13u8 { w.take(k - 2) } else { w.take(k - 1) }
@@ -409,11 +472,46 @@ vp_take_read_until(reader, max_buf_len, b'\n', buf)
 //@@ end
 }
 
-#[verifier::external_body]
-fn parse_chunk_size(line: &[u8]) -> (res: io::Result<usize>)
-    ensures res matches Ok(n) ==> chunk_size_spec(line@) == Some(n),
-            res is Err ==> chunk_size_spec(line@) is None,
-{ unimplemented!() }
+//@@ fn src/parsing/chunked_reader.rs - parse_chunk_size props=C01,C02,C05
+//@@ rw R5
+|&b| b == b';'
+//@@ =>
+|b_ref| -> (r: bool) ensures r == (*b_ref == 59u8) { let b = *b_ref; b == b';' }
+//@@ rw R1
+line.iter()
+        .position(
+//@@ =>
+vp_slice_position(line,
+//@@ rw R5
+|| str::from_utf8(line)
+//@@ =>
+|| -> (r: std::result::Result<&str, std::str::Utf8Error>) ensures (r is Ok <==> utf8_ok(line@)), (r matches Ok(s) ==> s@ == utf8_chars(line@)) { str::from_utf8(line) }
+//@@ rw R5
+|idx| str::from_utf8(&line[..idx])
+//@@ =>
+|idx: usize| -> (r: std::result::Result<&str, std::str::Utf8Error>) requires idx <= line@.len() ensures (r is Ok <==> utf8_ok(line@.take(idx as int))), (r matches Ok(s) ==> s@ == utf8_chars(line@.take(idx as int))) { str::from_utf8(&line[..idx]) }
+//@@ rw R5
+|line| usize::from_str_radix(line.trim(), 16).map_err(|_| InvalidResponseKind::ChunkSize)
+//@@ =>
+|line: &str| -> (r: std::result::Result<usize, InvalidResponseKind>) ensures (match r { Ok(v) => hex_spec(trim_spec(line@)) == Some(v), Err(_) => hex_spec(trim_spec(line@)) is None }) { usize::from_str_radix(line.trim(), 16).map_err(|_vp1| InvalidResponseKind::ChunkSize) }
+//@@ rw R5
+|_| InvalidResponseKind::ChunkSize
+//@@ =>
+|_vp0| InvalidResponseKind::ChunkSize
+//@@ splice before
+vp_slice_position(line,
+//@@ with
+    broadcast use fidx::group_first_idx;
+    proof {
+        assert(line@.take(line@.len() as int) =~= line@);
+        assert forall|i: int| 0 <= i < line@.len() && #[trigger] line@[i] == 59u8 && (forall|j: int| 0 <= j < i ==> line@[j] != 59u8)
+            implies first_idx(line@, 59u8) == i by { fidx::lemma_first_idx_some(line@, 59u8, i); }
+    }
+//@@ contract
+    ensures
+        res matches Ok(n) ==> chunk_size_spec(line@) == Some(n), // id: size_is_hex_of_line_before_ext [C01,C02]
+        res is Err ==> chunk_size_spec(line@) is None, // id: err_only_for_unparsable_size [C01,C05]
+//@@ end
 
 /// bytes a successful refill takes from the wire: [size line] + piece + [line ending iff the piece ends the chunk]
 pub open spec fn demand(rem: nat, w: Seq<u8>) -> int {
